@@ -525,44 +525,53 @@ func (s *SMT) Solve(q *Query, thorough bool, seed int, timeout time.Duration) (S
 	textC := s.Emit(q, true)
 	q.smtText = textZ
 	var all []SolverResult
+	definitive := func(r SolverResult) bool { return r.Status == "unsat" || r.Status == "sat" }
 	if !thorough {
-		r := runSolver("z3-new", textZ, timeout, seed)
+		// deterministic: default solver seeds. VERIF_SEED is only used to perturb the search in the thorough tier.
+		r := runSolver("z3-new", textZ, timeout, 0)
 		all = append(all, r)
-		if r.Status == "unsat" || r.Status == "sat" {
+		if definitive(r) {
 			return r, all
 		}
 		ch := make(chan SolverResult, 2)
-		go func() { ch <- runSolver("z3", textZ, timeout, seed) }()
-		go func() { ch <- runSolver("cvc5", textC, timeout, seed) }()
+		go func() { ch <- runSolver("z3", textZ, timeout, 0) }()
+		go func() { ch <- runSolver("cvc5", textC, timeout, 0) }()
 		best := r
 		for i := 0; i < 2; i++ {
 			x := <-ch
 			all = append(all, x)
-			if (x.Status == "unsat" || x.Status == "sat") && !(best.Status == "unsat" || best.Status == "sat") {
+			if definitive(x) && !definitive(best) {
 				best = x
 			}
 		}
 		return best, all
 	}
-	ch := make(chan SolverResult, 3)
-	go func() { ch <- runSolver("z3-new", textZ, timeout, seed) }()
-	go func() { ch <- runSolver("z3", textZ, timeout, seed) }()
-	go func() { ch <- runSolver("cvc5", textC, timeout, seed) }()
+	ch := make(chan SolverResult, 4)
+	n := 3
+	go func() { ch <- runSolver("z3-new", textZ, timeout, 0) }()
+	go func() { ch <- runSolver("z3", textZ, timeout, 0) }()
+	go func() { ch <- runSolver("cvc5", textC, timeout, 0) }()
+	if seed != 0 {
+		n = 4
+		go func() {
+			r := runSolver("z3-new", textZ, timeout, seed)
+			r.Solver = "z3-new(seed)"
+			ch <- r
+		}()
+	}
 	var best SolverResult
 	best.Status = "unknown"
-	for i := 0; i < 3; i++ {
+	for i := 0; i < n; i++ {
 		x := <-ch
 		all = append(all, x)
-		def := x.Status == "unsat" || x.Status == "sat"
-		bdef := best.Status == "unsat" || best.Status == "sat"
-		if def && bdef && x.Status != best.Status {
-			best.Status = "disagree"
+		if definitive(x) && definitive(best) && x.Status != best.Status {
 			best.Raw = fmt.Sprintf("%s says %s, %s says %s", best.Solver, best.Status, x.Solver, x.Status)
+			best.Status = "disagree"
 			return best, all
 		}
-		if def && !bdef {
+		if definitive(x) && !definitive(best) {
 			best = x
-		} else if !bdef && best.Solver == "" {
+		} else if !definitive(best) && best.Solver == "" {
 			best = x
 		}
 	}
